@@ -3,6 +3,7 @@
 //!   order <0 lifo|1 fifo|2 every-other>
 //!   rounds <n>
 //!   threads <t>             (feature `threaded`): each round is run by t threads concurrently
+//!   reps <k>                every thread runs the workload k times per round (contention on the global allocator)
 //!   foreign <bytes>         before every round the probe itself maps <bytes> (kept for good, touched): a
 //!                           long-lived foreign mapping between the allocator's mappings, so that new segments
 //!                           are not adjacent to old ones; these bytes are subtracted from the reported VmSize
@@ -242,6 +243,7 @@ pub fn main() -> i32 {
     let mut order = 0usize;
     let mut rounds = 1usize;
     let mut threads = 1usize;
+    let mut reps = 1usize;
     let mut foreign = 0usize;
     let mut foreign_pages = 0u64;
     for line in script.split(|c| *c == b'\n') {
@@ -264,6 +266,7 @@ pub fn main() -> i32 {
             Some(b"order") => order = w.next().and_then(parse_usize).unwrap_or(0),
             Some(b"rounds") => rounds = w.next().and_then(parse_usize).unwrap_or(1),
             Some(b"threads") => threads = w.next().and_then(parse_usize).unwrap_or(1),
+            Some(b"reps") => reps = w.next().and_then(parse_usize).unwrap_or(1).max(1),
             Some(b"foreign") => foreign = w.next().and_then(parse_usize).unwrap_or(0),
             Some(b"go") => {
                 let blocks: &'static [Blk] = unsafe { &BLOCKS[..nb] };
@@ -283,7 +286,13 @@ pub fn main() -> i32 {
                     {
                         let mut hs = alloc::vec::Vec::new();
                         for t in 0..threads {
-                            match tiny_std::thread::spawn(move || round(blocks, order, r * 1000 + t * 17)) {
+                            match tiny_std::thread::spawn(move || {
+                                let mut b = 0;
+                                for i in 0..reps {
+                                    b += round(blocks, order, r * 1000 + t * 17 + i);
+                                }
+                                b
+                            }) {
                                 Ok(h) => hs.push(h),
                                 Err(_) => {
                                     s("spawn-failed\n");
@@ -300,7 +309,11 @@ pub fn main() -> i32 {
                     #[cfg(not(feature = "threaded"))]
                     {
                         let _ = threads;
-                        bad = round(blocks, order, r * 1000);
+                        let mut b = 0;
+                        for i in 0..reps {
+                            b += round(blocks, order, r * 1000 + i);
+                        }
+                        bad = b;
                     }
                     s("r");
                     num(r as u64);
